@@ -18,7 +18,7 @@ that logs and still pushes the (nil) result.  Which one the tree has is extracte
 namespace KeepVerif.C39
 
 inductive Op where
-  | gen | genFail | genFailWrote | genNil | genCrash
+  | gen | genFail | genFailWrote | genNil | genCrash | genTorn
   | take | takeFail | takeCrashBefore | takeCrashAfter
   | restart | restartFail
   deriving DecidableEq, Repr
@@ -78,6 +78,12 @@ def step (fixed : Bool) (s : St) : Op → St × Out
   | .genCrash =>
     if s.pending.isSome then (s, .busy) else
     (reload { s with disk := s.disk ++ [s.next], next := s.next + 1 } true, .crashed)
+  | .genTorn =>
+    -- the process dies inside Save after the file was created and before its content was
+    -- written: the empty file is not a parameter (preParamsStorage.ReadAll rejects files whose
+    -- numbers are missing — fact `Gen.C39.loadRejectsIncompleteFiles`), then restart
+    if s.pending.isSome then (s, .busy) else
+    (reload { s with next := s.next + 1 } true, .crashed)
   | .take =>
     match recv s with
     | none => (s, .empty)
